@@ -286,6 +286,23 @@ def _fd_denominator(c, fd):
                   and isinstance(n.target, ast.Subscript) and ast.unparse(n.value) == h]
         if len(probes) != 1:
             problems.append(f"the probe is not moved by exactly the step `{h}` that divides the difference")
+        # the difference is posterior(probe) - posterior(t), both un-tempered evaluations of the user's density
+        num = quot[0].left
+        ok_num = False
+        if isinstance(num, ast.BinOp) and isinstance(num.op, ast.Sub):
+            lhs, rhs = num.left, num.right
+            base = rhs
+            if isinstance(rhs, ast.Name):
+                defs_b = [n for n in ast.walk(fd) if isinstance(n, ast.Assign) and ast.unparse(n.targets[0]) == rhs.id]
+                base = defs_b[0].value if len(defs_b) == 1 else None
+            tparam = fd.args.args[1].arg
+            ok_num = (isinstance(lhs, ast.Call) and ast.unparse(lhs.func) == "self.posterior"
+                      and base is not None and ast.unparse(base) == f"self.posterior({tparam})")
+            if not ok_num:
+                problems.append(f"the difference `{ast.unparse(num)}` (base value `{ast.unparse(base) if base is not None else None}`) is not "
+                                f"posterior(probe) - posterior({tparam}): a stored log-probability is tempered and belongs to another call")
+        else:
+            problems.append(f"numerator `{ast.unparse(num)}` is not a difference of two posterior evaluations")
     return struct_ob("fd-denominator", qual(c, fd), not problems, "; ".join(problems), HMC, fd.lineno)
 
 
